@@ -331,12 +331,32 @@ class KernelTranslator:
             pr.append(f"({j} : arr)")
         for a in args:
             pr.append(f"({a} : {'arr' if a in self.array_params else 'Z'})")
+        size_def = ""
+        if returns:
+            rname = body[-1].value.id
+            for k_, st_ in enumerate(body):
+                if (isinstance(st_, ast.Assign) and isinstance(st_.targets[0], ast.Name) and st_.targets[0].id == rname
+                        and isinstance(st_.value, ast.Call) and ast.unparse(st_.value.func) in ("np.empty", "np.empty_like", "np.zeros", "np.zeros_like")):
+                    f_ = ast.unparse(st_.value.func)
+                    cx2 = self.cx
+                    if f_.endswith("_like"):
+                        sz = cx2.add_extra(f"{st_.value.args[0].id}_size")
+                    else:
+                        sz = expr(st_.value.args[0], cx2)
+                    kt2 = KernelTranslator.__new__(KernelTranslator)
+                    kt2.fn, kt2.array_params, kt2.u8, kt2.cx, kt2.const_map, kt2.fresh = self.fn, self.array_params, self.u8, Ctx(self.array_params), {}, 0
+                    kt2.cx.extra = self.cx.extra
+                    kt2.cx.call_map = self.cx.call_map
+                    pre_txt = kt2.block(body[:k_], [sz], 1, set(args))
+                    zparams = " ".join(f"({x} : Z)" for x in self.cx.extra) + " " + " ".join(f"({a} : Z)" for a in args if a not in self.array_params)
+                    size_def = f"(* number of elements of the array returned by {fn.name} *)\nDefinition {fn.name}_size {zparams} : Z :=\n{pre_txt}.\n"
+                    break
         uses_divcast = "divcast" in txt
         if uses_divcast:
             pr.insert(0, "(divcast : Z -> Z -> Z)")
         meta = {"name": fn.name, "parallel": par, "params": pr, "outputs": arrays_out if not returns else ["<returned>"],
                 "extra": list(self.cx.extra), "junk": list(self.cx.junk), "divcast": uses_divcast}
-        return (f"(* from {fn.name}; parallel={par} *)\nDefinition {fn.name}_run {' '.join(pr)} : {ret} :=\n{txt}.\n", meta)
+        return (f"(* from {fn.name}; parallel={par} *)\nDefinition {fn.name}_run {' '.join(pr)} : {ret} :=\n{txt}.\n" + size_def, meta)
 
 
 def find_functions(path):
@@ -388,6 +408,7 @@ def gen_kernels(repo="/repo"):
             txt, meta = kt.translate()
             if name == "circular_pad_goodsize":
                 txt = txt.replace(f"Definition {name}_run ", f"Definition {name}_run (good_size : Z -> Z) ")
+                txt = txt.replace(f"Definition {name}_size ", f"Definition {name}_size (good_size : Z -> Z) ")
             out.append(txt)
         except Unsupported as e:
             errors.append(f"{name}: {e}")
@@ -744,8 +765,11 @@ def gen_base_sites(repo="/repo"):
         cx, pre, kw, skip, tgt, loop = gen_site(fn, ["data", "tim_ar", "chan_delays"], ["chan_delays", "max_delay", "gulp", "tim_len", "tim_ar"], "tim_ar")
         if skip != "max_delay" or tgt != "(nsamps_r, ii, data)":
             raise Unsupported(f"dedisperse: plan skipback/target changed: {skip} {tgt}")
-        if ast.unparse(pre["max_delay"]) != "int(chan_delays.max())" or ast.unparse(pre["chan_delays"]) != "self.header.get_dmdelays(dm)":
-            raise Unsupported("dedisperse: delay computation changed")
+        cd_assigns = [ast.unparse(s_.value) for s_ in fn.body if isinstance(s_, ast.Assign) and ast.unparse(s_.targets[0]) == "chan_delays"]
+        # delays from the dispersion law, shifted to be non-negative (the theorems take an arbitrary vector 0 <= d_c <= max_delay)
+        if ast.unparse(pre["max_delay"]) != "int(chan_delays.max())" or cd_assigns not in (
+                ["self.header.get_dmdelays(dm)"], ["self.header.get_dmdelays(dm)", "chan_delays - min(0, int(chan_delays.min()))"]):
+            raise Unsupported("dedisperse: delay computation changed: " + "; ".join(cd_assigns))
         if ast.unparse(pre["tim_ar"]) != "np.zeros(tim_len, dtype=np.float32)":
             raise Unsupported("dedisperse: tim_ar allocation changed")
         if len(loop.body) != 1:
@@ -808,7 +832,180 @@ def gen_base_sites(repo="/repo"):
     return "\n".join(out), errors
 
 
-GENERATORS = {"Kernels.v": gen_kernels, "Plan.v": gen_plan, "BaseSites.v": gen_base_sites}
+def gen_transform_sites(repo="/repo"):
+    """Gen/TransformSites.v: per-block functions of the file-to-file transforms of base.py.  Each returns the array handed
+    to FileWriter.cwrite and the number of elements written."""
+    out = ["(* GENERATED by tools/py2coq from sigpyproc/base.py -- do not edit *)",
+           "From Coq Require Import ZArith List Bool.", "Require Import SPP.Base.Rt SPP.Gen.Kernels.", "Import ListNotations.", "Open Scope Z_scope.", "",
+           "(* contract of read_plan (C01 block_ok): the yielded array holds nsamps_r * nchans elements *)",
+           "Definition data_size (nchans nsamps_r : Z) : Z := nsamps_r * nchans.", ""]
+    errors = []
+    KERNEL_OUT.update({"invert_freq": (None, 3), "downsample_2d_mean_flat": (None, 5)})
+
+    def method(nm):
+        return _method(repo, "sigpyproc/base.py", "Filterbank", nm)
+
+    def plan_site(fn, expect_skip, expect_tgt):
+        loop = _find_plan_loop(fn)
+        kw = {k.arg: k.value for k in loop.iter.keywords if k.arg is not None}
+        for need in ("gulp", "start", "nsamps"):
+            if need not in kw or ast.unparse(kw[need]) != need:
+                raise Unsupported(f"{fn.name}: read_plan argument {need} changed")
+        skip = ast.unparse(kw["skipback"]) if "skipback" in kw else "0"
+        if skip != expect_skip:
+            raise Unsupported(f"{fn.name}: skipback is {skip}, expected {expect_skip}")
+        if ast.unparse(loop.target) not in expect_tgt:
+            raise Unsupported(f"{fn.name}: loop target {ast.unparse(loop.target)}")
+        # nothing but the header is written before the loop, and the output is never sought/truncated
+        txt = ast.unparse(fn)
+        for bad in (".seek(", ".truncate(", "edit_header"):
+            if bad in txt:
+                raise Unsupported(f"{fn.name}: output is repositioned/patched ({bad})")
+        return loop
+
+    def args_of(stmt, kernel, cx, assign_to=None):
+        call = stmt.value if isinstance(stmt, (ast.Expr, ast.Assign)) else None
+        if assign_to is not None:
+            if not (isinstance(stmt, ast.Assign) and ast.unparse(stmt.targets[0]) == assign_to):
+                raise Unsupported(f"expected `{assign_to} = kernels.{kernel}(...)`, found " + ast.unparse(stmt)[:80])
+        elif not isinstance(stmt, ast.Expr):
+            raise Unsupported(f"expected a call statement of kernels.{kernel}, found " + ast.unparse(stmt)[:80])
+        if not (isinstance(call, ast.Call) and ast.unparse(call.func) == f"kernels.{kernel}") or call.keywords:
+            raise Unsupported(f"expected kernels.{kernel}(...), found " + ast.unparse(stmt)[:80])
+        if len(call.args) != KERNEL_OUT[kernel][1]:
+            raise Unsupported(f"kernels.{kernel} called with {len(call.args)} arguments")
+        return [expr(a, cx) for a in call.args]
+
+    def cwrite_arg(stmt, sizes, cx):
+        if not (isinstance(stmt, ast.Expr) and isinstance(stmt.value, ast.Call) and ast.unparse(stmt.value.func) == "out_file.cwrite" and len(stmt.value.args) == 1):
+            raise Unsupported("expected out_file.cwrite(...), found " + ast.unparse(stmt)[:80])
+        a = stmt.value.args[0]
+        if isinstance(a, ast.Name) and a.id in sizes:
+            return a.id, sizes[a.id]
+        if (isinstance(a, ast.Subscript) and isinstance(a.value, ast.Name) and isinstance(a.slice, ast.Slice) and a.slice.lower is None
+                and a.slice.step is None and a.slice.upper is not None):
+            return a.value.id, expr(a.slice.upper, cx)
+        raise Unsupported("cwrite argument " + ast.unparse(a))
+
+    cxn = lambda arrays: Ctx(set(arrays), attr_map=dict(SITE_ATTR))
+    # ---- invert_freq
+    try:
+        fn = method("invert_freq")
+        loop = plan_site(fn, "0", ("(nsamps_r, _, data)",))
+        cx = cxn(["data"])
+        if len(loop.body) != 2:
+            raise Unsupported("invert_freq: loop body changed")
+        a = args_of(loop.body[0], "invert_freq", cx, assign_to="out_ar")
+        name, size = cwrite_arg(loop.body[1], {"out_ar": f"(invert_freq_size (data_size nchans nsamps_r) {a[1]} {a[2]})", "data": "(data_size nchans nsamps_r)"}, cx)
+        out.append("(* from Filterbank.invert_freq *)")
+        out.append(f"Definition invert_block (junk_outarray data : arr) (nchans nsamps_r : Z) : arr * Z :=\n"
+                   f"  let out_ar := invert_freq_run junk_outarray {' '.join(a)} in ({name}, {size}).\n")
+    except Unsupported as e:
+        errors.append(f"invert_freq: {e}"); out.append(f"(* UNSUPPORTED invert_freq: {str(e).replace('*)', '* )')} *)\n")
+    # ---- apply_channel_mask
+    try:
+        fn = method("apply_channel_mask")
+        loop = plan_site(fn, "0", ("(nsamps_r, _ii, data)", "(nsamps_r, _, data)"))
+        cx = cxn(["data", "mask"])
+        if len(loop.body) != 2:
+            raise Unsupported("apply_channel_mask: loop body changed")
+        a = args_of(loop.body[0], "mask_channels", cx)
+        name, size = cwrite_arg(loop.body[1], {"data": "(data_size nchans nsamps_r)"}, cx)
+        if a[0] != "data" or name != "data":
+            raise Unsupported("apply_channel_mask: the masked array is not the one written")
+        out.append("(* from Filterbank.apply_channel_mask *)")
+        out.append(f"Definition mask_block (data mask : arr) (mask_value nchans nsamps_r : Z) : arr * Z :=\n"
+                   f"  let data := mask_channels_run {' '.join(a)} in ({name}, {size}).\n")
+    except Unsupported as e:
+        errors.append(f"apply_channel_mask: {e}"); out.append(f"(* UNSUPPORTED apply_channel_mask: {str(e).replace('*)', '* )')} *)\n")
+    # ---- extract_samps
+    try:
+        fn = method("extract_samps")
+        loop = plan_site(fn, "0", ("(_, _, data)", "(nsamps_r, _, data)"))
+        cx = cxn(["data"])
+        if len(loop.body) != 1:
+            raise Unsupported("extract_samps: loop body changed")
+        name, size = cwrite_arg(loop.body[0], {"data": "(data_size nchans nsamps_r)"}, cx)
+        out.append("(* from Filterbank.extract_samps *)")
+        out.append(f"Definition samps_block (data : arr) (nchans nsamps_r : Z) : arr * Z := ({name}, {size}).\n")
+    except Unsupported as e:
+        errors.append(f"extract_samps: {e}"); out.append(f"(* UNSUPPORTED extract_samps: {str(e).replace('*)', '* )')} *)\n")
+    # ---- downsample
+    try:
+        fn = method("downsample")
+        loop = plan_site(fn, "0", ("(nsamps_r, _ii, data)", "(nsamps_r, _, data)"))
+        cx = cxn(["data"])
+        txt = ast.unparse(fn)
+        if "gulp = int(np.ceil(gulp / tfactor) * tfactor)" not in txt:
+            raise Unsupported("downsample: gulp is no longer rounded up to a multiple of tfactor with int(np.ceil(gulp / tfactor) * tfactor)")
+        if "if self.header.nchans % ffactor != 0:" not in txt:
+            raise Unsupported("downsample: ffactor divisibility check changed")
+        if len(loop.body) != 2:
+            raise Unsupported("downsample: loop body changed")
+        a = args_of(loop.body[0], "downsample_2d_mean_flat", cx, assign_to="write_ar")
+        name, size = cwrite_arg(loop.body[1], {"write_ar": f"(downsample_2d_mean_flat_size {' '.join(a[1:])})"}, cx)
+        out.append("(* from Filterbank.downsample; gulp = int(np.ceil(gulp / tfactor) * tfactor) *)")
+        out.append("Definition downsample_gulp (gulp tfactor : Z) : Z := ((gulp + tfactor - 1) / tfactor) * tfactor.")
+        out.append(f"Definition downsample_block (divcast : Z -> Z -> Z) (junk_result data : arr) (tfactor ffactor nchans nsamps_r : Z) : arr * Z :=\n"
+                   f"  let write_ar := downsample_2d_mean_flat_run divcast junk_result {' '.join(a)} in ({name}, {size}).\n")
+    except Unsupported as e:
+        errors.append(f"downsample: {e}"); out.append(f"(* UNSUPPORTED downsample: {str(e).replace('*)', '* )')} *)\n")
+    # ---- subband
+    try:
+        fn = method("subband")
+        loop = plan_site(fn, "max_delay", ("(nsamps_r, _ii, data)", "(nsamps_r, _, data)"))
+        cx = cxn(["data", "out_ar", "chan_delays", "chan_to_sub"])
+        txt = ast.unparse(fn)
+        for need in ("subfactor = self.header.nchans // nsub", "max_delay = int(chan_delays.max())", "gulp = max(2 * max_delay, gulp)",
+                     "chan_to_sub = np.arange(self.header.nchans, dtype='int32') // subfactor"):
+            if need not in txt:
+                raise Unsupported("subband: expected line not found: " + need)
+        if len(loop.body) != 3:
+            raise Unsupported("subband: loop body changed (expected: clear accumulator, kernel, cwrite)")
+        z = loop.body[0]
+        if not (isinstance(z, ast.Assign) and isinstance(z.targets[0], ast.Subscript) and ast.unparse(z.targets[0].value) == "out_ar"
+                and isinstance(z.targets[0].slice, ast.Slice) and z.targets[0].slice.lower is None and ast.unparse(z.value) == "0"):
+            raise Unsupported("subband: accumulator is not cleared before the kernel: " + ast.unparse(z)[:80])
+        zlen = expr(z.targets[0].slice.upper, cx)
+        a = args_of(loop.body[1], "subband", cx)
+        name, size = cwrite_arg(loop.body[2], {}, cx)
+        out.append("(* from Filterbank.subband; chan_to_sub = arange(nchans) // (nchans // nsub) *)")
+        out.append("Definition subband_gulp (max_delay gulp : Z) : Z := Z.max (2 * max_delay) gulp.")
+        out.append("Definition subband_chan_to_sub (nchans nsub : Z) : arr := fun c => c / (nchans / nsub).")
+        out.append(f"Definition subband_block (out_ar data chan_delays chan_to_sub : arr) (max_delay nchans nsub nsamps_r : Z) : arr * Z :=\n"
+                   f"  let out_ar := zero_prefix out_ar {zlen} in\n"
+                   f"  let out_ar := subband_run {' '.join(a)} in ({name}, {size}).\n")
+    except Unsupported as e:
+        errors.append(f"subband: {e}"); out.append(f"(* UNSUPPORTED subband: {str(e).replace('*)', '* )')} *)\n")
+    # ---- extract_chans / extract_bands (column selections; template checked)
+    try:
+        fn = method("extract_chans")
+        plan_site(fn, "0", ("(nsamps_r, _, data)",))
+        txt = ast.unparse(fn)
+        for need in ("data_2d = data.reshape(nsamps_r, self.header.nchans)", "out_file.cwrite(data_2d[:, batch_chans[ifile]])"):
+            if need not in txt:
+                raise Unsupported("extract_chans: expected line not found: " + need)
+        out.append("(* from Filterbank.extract_chans: file for channel chan receives data.reshape(nsamps_r, nchans)[:, chan] *)")
+        out.append("Definition chans_block (data : arr) (nchans nsamps_r chan : Z) : arr * Z := ((fun k => data (k * nchans + chan)), nsamps_r).\n")
+        fn = method("extract_bands")
+        plan_site(fn, "0", ("(nsamps_r, _ii, data)", "(nsamps_r, _, data)"))
+        txt = ast.unparse(fn)
+        for need in ("nsub = nchans // chanpersub", "data_2d = data.reshape(nsamps_r, self.header.nchans)",
+                     "iband_chanstart = chanstart + (batch_start + ifile) * chanpersub",
+                     "subband_ar = data_2d[:, iband_chanstart:iband_chanstart + chanpersub]", "out_file.cwrite(subband_ar.ravel())"):
+            if need not in txt:
+                raise Unsupported("extract_bands: expected line not found: " + need)
+        out.append("(* from Filterbank.extract_bands: band iband receives data.reshape(nsamps_r, nchans)[:, c0:c0+chanpersub].ravel(), c0 = chanstart + iband*chanpersub *)")
+        out.append("Definition bands_count (nchans_sel chanpersub : Z) : Z := nchans_sel / chanpersub.")
+        out.append("Definition bands_block (data : arr) (nchans nsamps_r chanstart chanpersub iband : Z) : arr * Z :=\n"
+                   "  let c0 := chanstart + iband * chanpersub in\n"
+                   "  ((fun k => data ((k / chanpersub) * nchans + c0 + k mod chanpersub)), nsamps_r * chanpersub).\n")
+    except Unsupported as e:
+        errors.append(f"extract: {e}"); out.append(f"(* UNSUPPORTED extract: {str(e).replace('*)', '* )')} *)\n")
+    return "\n".join(out), errors
+
+
+GENERATORS = {"Kernels.v": gen_kernels, "Plan.v": gen_plan, "BaseSites.v": gen_base_sites, "TransformSites.v": gen_transform_sites}
 
 # further generators live in tools/py2coq/gen_*.py, each exporting GENERATORS = {"File.v": fn(repo) -> (text, errors)}
 import glob as _glob
